@@ -39,6 +39,21 @@ def strict_eq(a, b):
     return a == b
 
 
+def unordered_eq(a, b):
+    """same multiset of elements, elements compared with strict_eq (dict key order ignored)"""
+    if len(a) != len(b):
+        return False
+    rest = list(b)
+    for x in a:
+        for j, y in enumerate(rest):
+            if strict_eq(x, y):
+                del rest[j]
+                break
+        else:
+            return False
+    return True
+
+
 def find_forbidden(v, nodot, path=()):
     """first forbidden item in plain data: non-string key, non-JSON leaf, dotted key"""
     if isinstance(v, dict):
@@ -398,8 +413,7 @@ class Shadow:
         if real_err is None and exp_err is None and name != "dpopitem":
             rp = to_plain(ns, real)
             if name in UNORDERED and isinstance(rp, list):
-                key = lambda x: repr(x)
-                same = sorted(map(key, rp)) == sorted(map(key, exp)) and len(rp) == len(exp)
+                same = unordered_eq(rp, exp)
             else:
                 same = strict_eq(rp, exp) if not isinstance(exp, bool) else rp is exp
             if not same:
